@@ -1,0 +1,11 @@
+//! Verification hook (`--cfg foca_verif`): read-only view of `Members`.
+use alloc::vec::Vec;
+
+use super::{Member, Members};
+
+impl<T: Clone> Members<T> {
+    /// (records in storage order, cursor, cached number of active records)
+    pub(crate) fn verif_view(&self) -> (Vec<Member<T>>, usize, usize) {
+        (self.inner.clone(), self.cursor, self.num_active)
+    }
+}
